@@ -141,6 +141,20 @@ def _search_boxed(here, out):
     return None, (p.stdout.strip()[-300:])
 
 
+def _search_schedvm(here, out):
+    exe, err = _build("ffi_serde", here, out)
+    if exe is None:
+        return None, "replay harness does not build against the current tree: " + err[-400:]
+    try:
+        p = subprocess.run([exe, "schedvm-search"], capture_output=True, text=True, timeout=900)
+    except subprocess.TimeoutExpired:
+        return None, "replay search timeout"
+    m = re.search(r"FOUND index=(\d+) value=(.*?) clause=(.*)", p.stdout)
+    if m:
+        return {"cmd": ["ffi_replay", "schedvm-run", m.group(1)], "value": m.group(2), "clause": m.group(3)}, ""
+    return None, (p.stdout.strip()[-300:])
+
+
 def _search_layout(here, out):
     exe, err = _build("ffi_serde", here, out)
     if exe is None:
@@ -170,7 +184,7 @@ def _search_cst(here, out):
     return None, p.stdout.strip()[-300:]
 
 
-SEARCHERS = {"state_tree": lambda here, out: _search_state_tree(here, out, 4), "ffi_serde": _search_ffi, "parser": _search_parser, "privacy": _search_privacy, "sched": _search_sched, "boxed": _search_boxed, "cst": _search_cst, "layout": _search_layout}
+SEARCHERS = {"state_tree": lambda here, out: _search_state_tree(here, out, 4), "ffi_serde": _search_ffi, "parser": _search_parser, "privacy": _search_privacy, "sched": _search_sched, "boxed": _search_boxed, "cst": _search_cst, "layout": _search_layout, "schedvm": _search_schedvm}
 TOOLS = {"st_replay": "state_tree", "ffi_replay": "ffi_serde", "parser_replay": "parser"}
 
 
